@@ -612,4 +612,20 @@ def docOK2 (d : Doc F) : Bool :=
   d.tables.all (tableOK2 d.enums) && nodup (d.tables.map (fun t => upper t.name)) &&
   d.hdr.all (pairOK2 (d.tables.map (fun t => upper t.name))) && nodup (d.hdr.map (·.1))
 
+/-! ### the documented assumption on declaration lines -/
+
+/-- inside a struct definition every declaration after the first is preceded by a newline
+(`type()` matches `[...]` greedily up to the last `];` of the line, so `int a[2]; char t[8];` on one
+line is outside the domain) -/
+def declNlOK (cols : List ColLay) : Bool := cols.tail.all (fun l => l.pre.contains '\n')
+
+def slotNlOK : Slot → Bool
+  | .sdef lay => declNlOK lay.cols
+  | _ => true
+
+/-- `layoutOK` together with the assumption on declaration lines: the domain of the file-level
+layout-independence theorem -/
+def layoutOK2 (io : FloatIO F) (d : Doc F) (lay : Layout) : Bool :=
+  layoutOK io d lay && lay.slots.all slotNlOK
+
 end PydlVerif.Yanny
